@@ -412,6 +412,18 @@ def rule_autoescape_writers(ck, px):
         ck.ob(rid, px.fi, s, len(none_sets) <= 1, "at most one path stores None", construct="None stores")
 
 
+def _reach(cfg, a, b):
+    seen = set()
+    st = [x for x, k in cfg.succ[a.id] if k != "exc"]
+    while st:
+        x = st.pop()
+        if x in seen:
+            continue
+        seen.add(x)
+        st.extend(y for y, k in cfg.succ[x] if k != "exc")
+    return b.id in seen
+
+
 def rule_default_escape(ck):
     rid = "C20.default-escape"
     d = ck.repo.const(T, "_DEFAULT_AUTOESCAPE")
@@ -439,6 +451,16 @@ def rule_default_escape(ck):
             ck.ob(rid, ti, nd.ast, holds(facts[nd.id], "isinstance(%s, _UnsetMarker)" % ap, True) or holds(facts[nd.id], "%s is _UNSET" % ap, True), "the loader's setting is used only when no explicit argument was given")
         if v == "_DEFAULT_AUTOESCAPE":
             ck.ob(rid, ti, nd.ast, (holds(facts[nd.id], "isinstance(%s, _UnsetMarker)" % ap, True) or holds(facts[nd.id], "%s is _UNSET" % ap, True)) and holds(facts[nd.id], "loader", False), "the default is used when neither argument nor loader decide")
+    # the constructor decides the setting *before* the text is parsed, so that an autoescape directive in the
+    # text (which writes template.autoescape during _parse) is not overwritten afterwards
+    pcalls = [n_ for n_, c_ in ti.cfg.find(lambda x: q.is_call(x, "_parse"))]
+    ck.floor(rid, len(pcalls), 1, "_parse call in Template.__init__")
+    for nd in ti.cfg.stmt_nodes(lambda nd: nd.kind == "stmt" and "self.autoescape" in q.assigned_paths(nd.ast)):
+        late = any(_reach(ti.cfg, pc, nd) for pc in pcalls)
+        ck.ob(rid, ti, nd.ast, not late, "self.autoescape is initialised before the template text is parsed (a directive's setting is not overwritten)")
+    for pc in pcalls:
+        c_ = [c for c in q.calls(pc.ast) if q.is_call(c, "_parse")][0]
+        ck.ob(rid, ti, c_, len(c_.args) >= 2 and q.dotted(c_.args[1]) == "self", "the text is parsed for this template object (directives write this template's setting)")
     n_def = sum(1 for s in q.stores_to(ti.node, "self.autoescape") if q.dotted(s.value) == "_DEFAULT_AUTOESCAPE")
     ck.ob(rid, ti, ti.node, n_def == 1, "without argument and loader the template escapes with the default", construct="default store count %d" % n_def)
     bl = ck.func(T, "BaseLoader.__init__")
@@ -518,6 +540,7 @@ MUTANTS = [
     ("autoescape directive changes the loader default", _in("_parse", replace_stmt(lambda st: isinstance(st, ast.Assign) and _u(st.targets[0]) == "template.autoescape", lambda st: [st, parse_stmt("template.loader.autoescape = fn")])), "C20.autoescape-writers"),
     ("empty autoescape directive disables escaping", _in("_parse", replace_expr(lambda n: _u(n) == "fn == 'None'", lambda n: parse_expr("fn == 'None' or not fn"))), "C20.autoescape-writers"),
     ("writer starts in the derived template", _in("Template._generate_python", replace_expr(lambda n: _u(n) == "ancestors[0].template", lambda n: parse_expr("self"))), "C20.root-template"),
+    ("constructor settles autoescape after parsing (directive overwritten)", _in("Template.__init__", lambda fn: (lambda i_if, i_parse: (fn.body.insert(i_parse[0] + 1, fn.body.pop(i_if[0])) or True) if i_if and i_parse and i_if[0] < i_parse[0] else False)([i for i, st in enumerate(fn.body) if isinstance(st, ast.If) and "self.autoescape" in _u(st)], [i for i, st in enumerate(fn.body) if isinstance(st, ast.Assign) and "_parse(" in _u(st)])), "C20.default-escape"),
     ("no loader means no escaping", _in("Template.__init__", replace_stmt(lambda st: isinstance(st, ast.Assign) and _u(st) == "self.autoescape = _DEFAULT_AUTOESCAPE", lambda st: [parse_stmt("self.autoescape = None")])), "C20.default-escape"),
     ("xhtml_escape keeps quotes", _in("xhtml_escape", replace_expr(lambda n: isinstance(n, ast.Call) and _u(n.func) == "html.escape", lambda n: parse_expr("html.escape(to_unicode(value), quote=False)")), rel=ESC), "C20.default-escape"),
     ("namespace binds the default name to a no-op", _in("Template.generate", replace_expr(lambda n: _u(n) == "escape.xhtml_escape", lambda n: parse_expr("escape.to_unicode"), limit=2)), "C20.default-escape"),
